@@ -8,7 +8,7 @@
 //	ops      e<int> Enqueue, d Dequeue, p Peek, l Len
 //
 // stdout: one line per history; per op "<answer>|<Len()>|<heap array data[1:]>" joined by ';'.
-// A run-time panic is the answer "panic" and ends the history.
+// A run-time panic is the answer "panic" and ends the history; a call that does not return is "hang".
 package c05pq
 
 import (
@@ -18,6 +18,7 @@ import (
 	"os"
 	"strconv"
 	"strings"
+	"time"
 
 	"github.com/ecodeclub/ekit"
 	"github.com/ecodeclub/ekit/queue"
@@ -125,8 +126,42 @@ func observe(q pq) (s string) {
 	return sb.String()
 }
 
-// Main reads histories from stdin.
+// runHistory runs one history and returns its output line.
+func runHistory(f []string) string {
+	capacity, err := strconv.Atoi(f[2])
+	if err != nil {
+		return "badcase"
+	}
+	var q pq
+	if f[0] == "pub" {
+		q = queue.NewPriorityQueue[int](capacity, comparator(f[1]))
+	} else {
+		q = queue.VerifNewInternalPriorityQueue[int](capacity, comparator(f[1]))
+	}
+	var sb strings.Builder
+	for i, op := range f[3:] {
+		ans := doOp(q, op)
+		if i > 0 {
+			sb.WriteByte(';')
+		}
+		sb.WriteString(ans)
+		sb.WriteByte('|')
+		sb.WriteString(observe(q))
+		if ans == "panic" {
+			break
+		}
+	}
+	return sb.String()
+}
+
+// Main reads histories from stdin.  A history on which the implementation does not return within
+// C05_HANG_MS (default 3000) milliseconds is answered "hang|hang|hang"; the process then exits with
+// status 3 (the spinning call cannot be cancelled) and the caller resumes with the next history.
 func Main(args []string) {
+	limit := 3000 * time.Millisecond
+	if ms, err := strconv.Atoi(os.Getenv("C05_HANG_MS")); err == nil && ms > 0 {
+		limit = time.Duration(ms) * time.Millisecond
+	}
 	in := bufio.NewScanner(os.Stdin)
 	in.Buffer(make([]byte, 1<<20), 1<<28)
 	out := bufio.NewWriterSize(os.Stdout, 1<<20)
@@ -137,29 +172,16 @@ func Main(args []string) {
 			fmt.Fprintln(out, "badcase")
 			continue
 		}
-		capacity, err := strconv.Atoi(f[2])
-		if err != nil {
-			fmt.Fprintln(out, "badcase")
-			continue
+		done := make(chan string, 1)
+		go func() { done <- runHistory(f) }()
+		select {
+		case line := <-done:
+			out.WriteString(line)
+			out.WriteByte('\n')
+		case <-time.After(limit):
+			out.WriteString("hang|hang|hang\n")
+			out.Flush()
+			os.Exit(3)
 		}
-		var q pq
-		if f[0] == "pub" {
-			q = queue.NewPriorityQueue[int](capacity, comparator(f[1]))
-		} else {
-			q = queue.VerifNewInternalPriorityQueue[int](capacity, comparator(f[1]))
-		}
-		for i, op := range f[3:] {
-			ans := doOp(q, op)
-			if i > 0 {
-				out.WriteByte(';')
-			}
-			out.WriteString(ans)
-			out.WriteByte('|')
-			out.WriteString(observe(q))
-			if ans == "panic" {
-				break
-			}
-		}
-		out.WriteByte('\n')
 	}
 }
